@@ -59,6 +59,11 @@ KeyLens == (1..70) \cup {127, 128, 129, 255, 256, 257, 511, 512, 513, 1023, 1024
 KName(L, ch) == [i \in 1..L |-> IF i = L THEN ch ELSE 97 + RemB(i, 3)]
 KeyCases == UNION {{ <<<<KName(L, 113) \o <<120>>, KName(L, 113), <<122>>>>, q>> : q \in {KName(L, 113), KName(L, 81), KName(L, 113) \o <<121>>, KName(L, 113) \o <<120>>, SubSeq(KName(L, 113), 1, L - 1), FoldUp(KName(L, 113))} } : L \in KeyLens}
 FirstMatch(keys, q, cs) == IF \E i \in DOMAIN keys : KeyEq(keys[i], q, cs) THEN CHOOSE i \in DOMAIN keys : KeyEq(keys[i], q, cs) /\ \A j \in DOMAIN keys : KeyEq(keys[j], q, cs) => i <= j ELSE 0
+FoldTable == [b \in 1..255 |-> FoldB(<<b>>)[1]]
+KeyLessFold(x, y) == KeyLessB(FoldB(x), FoldB(y))
+FoldOrderLemma == \A x \in {<<107, 64, 120>>, <<107, 95, 120>>, <<75, 91>>, <<107, 123>>, <<107>>} : \A y \in {<<107, 96, 120>>, <<75, 63, 120>>, <<107, 90>>, <<107, 122, 1>>, <<>>} :
+                    KeyLessFold(x, y) <=> \/ \E i \in 1..Len(x) : i <= Len(y) /\ FoldTable[x[i]] < FoldTable[y[i]] /\ \A j \in 1..(i - 1) : FoldTable[x[j]] = FoldTable[y[j]]
+                                          \/ Len(x) < Len(y) /\ \A j \in 1..Len(x) : FoldTable[x[j]] = FoldTable[y[j]]
 Init == phase = 0 /\ c \in (IF Mode = "dup" THEN DupCases ELSE IF Mode = "keys" THEN KeyCases ELSE SortCases \cup WordCases)
 Next == /\ phase = 0 /\ phase' = 1 /\ c' = c
         /\ IF Mode = "keys" THEN Emit => (PrintT(ToJson(<<"Q", c[1], c[2], TRUE, FirstMatch(c[1], c[2], TRUE)>>)) /\ PrintT(ToJson(<<"Q", c[1], c[2], FALSE, FirstMatch(c[1], c[2], FALSE)>>)))
@@ -68,5 +73,8 @@ Next == /\ phase = 0 /\ phase' = 1 /\ c' = c
                          \* scale directives: n members whose keys are "k" and the 7 digits of (i * 11) mod n (case of the "k" alternating for the folded variant);
                          \* the driver builds them, the verdict is the one of SortVerdict (MC_UtilCheck), evaluated by the driver's own comparison, which the
                          \* recorded small and medium cases validate against TLC
-                         /\ (c = <<<<107>>, <<107>>, <<107>>>> => \A n \in ScaleSizes : PrintT(ToJson(<<"Z", n, 11>>))))
+                         /\ (c = <<<<107>>, <<107>>, <<107>>>> => \A n \in ScaleSizes : PrintT(ToJson(<<"Z", n, 11>>)))
+                         \* the ASCII case folding of the case-insensitive order as a byte table (the order compares folded bytes one by one: FoldOrderLemma);
+                         \* the driver sorts two members whose keys differ in one byte, for every pair of byte values, with both variants
+                         /\ (c = <<<<107>>, <<107>>, <<107>>>> => Assert(FoldOrderLemma, "the case-insensitive key order is not byte-wise") /\ PrintT(ToJson(<<"W", FoldTable>>))))
 =============================================================================
